@@ -14,3 +14,5 @@ CONSTANTS
   StopForgetsParts = TRUE
   DropRemembered = TRUE
   MayStartAgain = FALSE
+  PartsDroppedAtStart <- NoParts
+  SynthPartSkipped = FALSE
